@@ -141,6 +141,11 @@ FUNCS: list[tuple[str, list[tuple[str, tuple]], tuple, list[str], list[list]]] =
 	('obj_classmethod', [('n', INT)], INT, ['b = Base.make()', 'return b.n * 10 + len(b.label) + n'], INTS),
 	('obj_fields', [('n', INT)], STR, ['s = Sub(n)', 's.n += 2', "s.label = s.label + 'x'", "return s.label + str(s.n) + ('h' if s.ratio > 0.25 else 'l')"], INTS),
 	('obj_list', [('n', INT)], INT, ['bs = [Base(n), Base(2, \'ab\')]', 't = 0', 'for b in bs:', '\tt = t * 10 + b.total()', 'return clamp(t)'], INTS),
+	# -- constructs behind defects repaired in the repository (fa5b6b0, 11269be, 6a19f4e)
+	('decl_from_chained_call', [('n', INT)], INT, ['q = Base(n).total()', 'b = Sub(n)', 'w: int = Base(n, \'xy\').twice', 'return q * 100 + b.n + w'], INTS),
+	('range_loose_bounds', [('n', INT)], INT, ['t = 0', 'm = absi(n)', 'for i in range(m & 3):', '\tt = t * 3 + i + 1', 'for j in range(m | 1, (m ^ 5) + 3):', '\tt = clamp(t * 2 + j)', 'for k in range(4 if m > 2 else 2):', '\tt = clamp(t + k)', 'return t'], INTS),
+	('range_loose_comp', [('n', INT)], ('list', INT), ['m = absi(n)', 'xs = [q * 2 for q in range(m & 3)]', 'xs.append(len(xs))', 'return xs'], INTS),
+	('quoted_strings', [('n', INT)], STR, ["a = 'a\"b'", "b = '''abc'''", 'c = \"\"\"x\"y\"\"\"', "d = 'it\\'s'", "e = '''l1\\nl2'''", 'return a + b + c + d + e + str(n)'], INTS),
 	# -- exceptions
 	('try_raise', [('n', INT)], INT, ['t = 0', 'try:', '\tif n > 1:', "\t\traise RuntimeError('x')", '\tt = 1', 'except RuntimeError as e:', '\tt = 2', 'return t'], INTS),
 	('casts', [('n', INT), ('f', FLOAT)], INT, ['a = int(f * 2.0)', 'b = float(n) + 0.5', 'c = int(b)', 'return a * 100 + c'], IF),
